@@ -412,4 +412,113 @@ def expectedDelivered (cfg : Cfg) (fs : List Frame) : List Frame := (effective c
 /-- the frame that ends the call, if any -/
 def firstBad (cfg : Cfg) (fs : List Frame) : Option Frame := ((effective cfg fs).dropWhile (frameOK cfg)).head?
 
+/-! ## The root constructor `grpcbridge.NewWebBridge` (bridge.go): from options to per-bridge transcoders -/
+
+/-- `transcoding.DefaultJSONMarshaler` as far as negotiation is concerned -/
+def jsonMarshaler : Marshaler := { mime := jsonMime, binary := false, stream := true }
+
+/-- the `BridgeOption`s that touch `transcoderOpts` -/
+inductive BridgeOpt
+  | withMarshalers (ms : List Marshaler)
+  | withDefaultMarshaler (m : Marshaler)
+deriving DecidableEq, Repr
+
+/-- `transcoding.StandardTranscoderOpts` (`none` = nil, the field was never set) -/
+structure TranscoderOpts where
+  marshalers : Option (List Marshaler)
+  dflt : Option Marshaler
+deriving DecidableEq, Repr
+
+def applyBridgeOpt (o : TranscoderOpts) : BridgeOpt → TranscoderOpts
+  | .withMarshalers ms => { o with marshalers := some ms }
+  | .withDefaultMarshaler m => { o with dflt := some m }
+
+/-- `for _, opt := range opts { opt.applyBridge(&options) }` starting from `defaultBridgeOptions()` -/
+def bridgeOptions (opts : List BridgeOpt) : TranscoderOpts := opts.foldl applyBridgeOpt { marshalers := none, dflt := none }
+
+/-- a `StandardTranscoder`: what `Bind` consults -/
+structure Transcoder where
+  ms : List Marshaler
+  dflt : Marshaler
+deriving DecidableEq, Repr
+
+/-- `NewStandardTranscoder(opts.withDefaults())` -/
+def newStandardTranscoder (o : TranscoderOpts) : Transcoder :=
+  { ms := o.marshalers.getD [jsonMarshaler], dflt := o.dflt.getD jsonMarshaler }
+
+/-- the four handlers behind `WebBridge` -/
+inductive Bridge
+  | transcodedHTTP | transcodedWS | grpcWebHTTP | grpcWebWS
+deriving DecidableEq, Repr
+
+/-- the entry points a transcoded call can come in through (`WebBridge.ServeHTTP` dispatch) -/
+inductive Entry
+  | http | sse | ws
+deriving DecidableEq, Repr
+
+def entryBridge : Entry → Bridge
+  | .http => .transcodedHTTP
+  | .sse => .transcodedHTTP
+  | .ws => .transcodedWS
+
+/-- What `NewWebBridge` puts into the `Transcoder` field of each bridge's Opts (`none`: not set — the
+    gRPC-Web handlers have no such field): the one `transcoder := NewStandardTranscoder(options.transcoderOpts)`. -/
+def wiredTranscoder (opts : List BridgeOpt) : Bridge → Option Transcoder
+  | .transcodedHTTP => some (newStandardTranscoder (bridgeOptions opts))
+  | .transcodedWS => some (newStandardTranscoder (bridgeOptions opts))
+  | .grpcWebHTTP => none
+  | .grpcWebWS => none
+
+/-- the seeded variant C13-m6: the WebSocket Opts literal lost its `Transcoder` line -/
+def wiredTranscoderM6 (opts : List BridgeOpt) : Bridge → Option Transcoder
+  | .transcodedHTTP => some (newStandardTranscoder (bridgeOptions opts))
+  | _ => none
+
+/-- `webbridge.…Opts.withDefaults`: a nil `Transcoder` becomes `NewStandardTranscoder(StandardTranscoderOpts{})` -/
+def effectiveTranscoder (w : Option Transcoder) : Transcoder :=
+  w.getD (newStandardTranscoder { marshalers := none, dflt := none })
+
+/-- the transcoder that serves a request arriving through entry point `e` -/
+def entryTranscoder (wiring : Bridge → Option Transcoder) (e : Entry) : Transcoder :=
+  effectiveTranscoder (wiring (entryBridge e))
+
+/-- the negotiation result for a request arriving through entry point `e` -/
+def entryBind (wiring : Bridge → Option Transcoder) (e : Entry) (r : BindReq) : Except BindErr Bound :=
+  bind (entryTranscoder wiring e).ms (entryTranscoder wiring e).dflt r
+
+/-! ### the same plumbing read off the regenerated fact `Generated.webBridgeWiring` -/
+
+/-- one row of the fact: (constructor, Opts type, fields the type declares, fields the value sets) -/
+abbrev WiringRow := String × String × List String × List (String × String)
+
+def ctorName : Bridge → String
+  | .transcodedHTTP => "NewTranscodedHTTPBridge"
+  | .transcodedWS => "NewTranscodedWebSocketBridge"
+  | .grpcWebHTTP => "NewGRPCWebBridge"
+  | .grpcWebWS => "NewGRPCWebSocketBridge"
+
+/-- the expression a constructor's Opts value sets `field` to -/
+def fieldExpr (rows : List WiringRow) (ctor field : String) : Option String :=
+  match rows.find? (fun r => r.1 == ctor) with
+  | some r => (r.2.2.2.find? (fun kv => kv.1 == field)).map (·.2)
+  | none => none
+
+/-- every row whose Opts type declares `field` sets it, and all of them to the expression `e` -/
+def fieldShared (rows : List WiringRow) (field e : String) : Bool :=
+  rows.all (fun r => !r.2.2.1.contains field || (r.2.2.2.find? (fun kv => kv.1 == field)).map (·.2) == some e)
+
+/-- the wiring the source has now: all four constructors are called exactly once; `Transcoder`,
+    `Forwarder` and `Logger` are set wherever the Opts type has them, each to one shared expression -/
+def wiringOK (rows : List WiringRow) (transcoderInit : String) : Bool :=
+  rows.map (·.1) == ["NewGRPCWebBridge", "NewGRPCWebSocketBridge", "NewTranscodedHTTPBridge", "NewTranscodedWebSocketBridge"] &&
+  fieldShared rows "Transcoder" "transcoder" &&
+  fieldShared rows "Forwarder" "options.common.forwarder" &&
+  fieldShared rows "Logger" "options.common.logger" &&
+  transcoderInit == "transcoding.NewStandardTranscoder(options.transcoderOpts)"
+
+/-- `wiredTranscoder` as the source spells it: a bridge gets the shared transcoder iff its Opts value sets
+    `Transcoder: transcoder` -/
+def wiredFrom (rows : List WiringRow) (opts : List BridgeOpt) (b : Bridge) : Option Transcoder :=
+  if fieldExpr rows (ctorName b) "Transcoder" == some "transcoder" then some (newStandardTranscoder (bridgeOptions opts)) else none
+
 end GB.C13
